@@ -591,6 +591,16 @@ func execD(e *lp.Exec, rc *recvCase, lg *capLogger, f []string) {
 		if ml > L {
 			e.Oracle("c15-limit", "class=buffered-over-limit msglen=%d limit=%d", ml, L)
 		}
+		// unparsed bytes kept while the conn lives: an incomplete header (< 14 bytes) or an incomplete frame that passed the
+		// size checks (c15_cache_bound_by_limit): more than that is a frame buffered although its declared length is over the limit
+		if room := L - ml; ec == 0 {
+			if room < 125 {
+				room = 125
+			}
+			if cache >= 14+room {
+				e.Oracle("c15-limit", "class=buffered-over-limit unparsed cache=%d with limit=%d and %d bytes assembled (an oversize frame is being buffered)", cache, L, ml)
+			}
+		}
 		for _, o := range ep.infl {
 			if len(o.out) > L+1 { // one byte beyond the limit may be read to tell "exactly the limit" from "more"
 				e.Oracle("c15-limit", "class=inflate-over-limit held=%d limit=%d", len(o.out), L)
